@@ -561,7 +561,10 @@ impl<T: CanonicalDeserialize> CanonicalDeserialize for Vec<T> {
         let len = u64::deserialize_with_mode(&mut reader, compress, validate)?
             .try_into()
             .map_err(|_| SerializationError::NotEnoughSpace)?;
-        let mut values = Self::with_capacity(len);
+        // `len` comes from the input and may be far larger than what the
+        // reader can deliver: reserve a bounded amount up front and let the
+        // collection grow while elements actually arrive.
+        let mut values = Self::with_capacity(cautious_capacity::<T>(len));
         for _ in 0..len {
             values.push(T::deserialize_with_mode(
                 &mut reader,
@@ -575,6 +578,17 @@ impl<T: CanonicalDeserialize> CanonicalDeserialize for Vec<T> {
         }
         Ok(values)
     }
+}
+
+/// Upper bound (in bytes) on the memory reserved for a sequence before any of
+/// its elements has been read.
+const MAX_PREALLOCATION_BYTES: usize = 4096;
+
+// Helper function. Capacity to reserve for a sequence whose claimed length
+// `len` has not been validated against the input yet.
+#[inline]
+fn cautious_capacity<T>(len: usize) -> usize {
+    len.min(MAX_PREALLOCATION_BYTES / core::mem::size_of::<T>().max(1))
 }
 
 // Helper function. Serializes any sequential data type to the format
@@ -658,7 +672,10 @@ impl<T: CanonicalDeserialize> CanonicalDeserialize for VecDeque<T> {
         let len = u64::deserialize_with_mode(&mut reader, compress, validate)?
             .try_into()
             .map_err(|_| SerializationError::NotEnoughSpace)?;
-        let mut values = Self::with_capacity(len);
+        // `len` comes from the input and may be far larger than what the
+        // reader can deliver: reserve a bounded amount up front and let the
+        // collection grow while elements actually arrive.
+        let mut values = Self::with_capacity(cautious_capacity::<T>(len));
         for _ in 0..len {
             values.push_back(T::deserialize_with_mode(
                 &mut reader,
